@@ -47,6 +47,13 @@ def gen_case(rng):
 
 
 def _gen_case(rng):
+    c = _gen_case0(rng)
+    if c['generate_at'] is not None and rng.random() < 0.3:
+        c['steps_in_processes'] = True
+    return c
+
+
+def _gen_case0(rng):
     return {'kind': 'dynflow', 'entry': rng.choice(['parts', 'composite', 'store', 'merge', 'template', 'composer']),
             'initial': rng.choice([['a'], ['a'], ['a', 'z']]),
             'generate_at': rng.choice([None, 1, 2, 2]), 'divide_at': rng.choice([None, None, 2, 3]),
@@ -57,6 +64,9 @@ def _gen_case(rng):
 
 def corpus():
     return [
+        # F53: the steps of the generated compartment are handed over in its `processes` dictionary, with a flow
+        {'kind': 'dynflow', 'entry': 'parts', 'initial': ['a'], 'generate_at': 2, 'divide_at': None, 'ticks': 4,
+         'x0': 0, 'slow': None, 'director': 'process', 'steps_in_processes': True},
         # compartment `a` (process, flow steps, two chained legacy derivers) is moved to another store at t=2
         {'kind': 'dynflow', 'entry': 'parts', 'initial': ['a', 'z'], 'generate_at': None, 'divide_at': None, 'ticks': 5,
          'x0': 0, 'slow': None, 'director': 'process', 'move_at': 2},
@@ -233,6 +243,11 @@ def generated(key, case):
     out = [dict(compartment(key, case['x0'] + 100, inner=case.get('inner', False)), key='g')]
     if case.get('twin'):
         out.append(dict(compartment(key, case['x0'] + 200, inner=case.get('inner', False)), key='h'))
+    if case.get('steps_in_processes'):
+        # the steps travel in the `processes` dictionary of the directive (the legacy placement); their flow counts
+        for d in out:
+            d['processes'] = dict(d['processes'], **d['steps'])
+            d['steps'] = {}
     return out
 
 
@@ -401,12 +416,15 @@ def run_impl(case):
 
         def leaves(d):
             return sorted(list(p) for p in hierarchy_depth(d or {}).keys())
-        obs['published'] = {'steps': leaves(eng.steps), 'flow': leaves(eng.flow),
+        # (a step handed over in a `processes` dictionary is published there: the legacy placement)
+        proc_steps = [list(p) for p, o in hierarchy_depth(eng.processes or {}).items() if o.is_step()]
+        obs['published'] = {'steps': sorted(leaves(eng.steps) + proc_steps), 'flow': leaves(eng.flow),
                             'store_steps': leaves(eng.state.get_steps() or {}),
                             'store_flow': leaves(eng.state.get_flow() or {})}
         if case['entry'] == 'composite':
             # the Composite the engine was built from is kept up to date as well
-            obs['published']['written_back'] = {'steps': leaves(built_from['steps']),
+            wb_proc_steps = [list(p) for p, o in hierarchy_depth(built_from['processes'] or {}).items() if o.is_step()]
+            obs['published']['written_back'] = {'steps': sorted(leaves(built_from['steps']) + wb_proc_steps),
                                                 'flow': leaves(built_from['flow'])}
     except Exception as e:  # noqa
         obs['raised'] = f'{type(e).__name__}: {str(e)[:200]}'
